@@ -1310,7 +1310,7 @@ impl<'t, 'b> G<'t, 'b> {
         let aliases: Vec<String> = self.visible().into_iter().filter(|l| l.alias_of.as_deref() == Some(cap.name.as_str())).map(|l| l.name).collect();
         // ... or through a syntax node stored in another scoped variable (`node @a.ref.n`): which
         // node that is, is not tracked, so the new variable is never read back
-        let links: Vec<Expr> = if !reuse && top && self.t.chance(1, 4) { self.scoped_reads(&Ty::Syn) } else { vec![] };
+        let links: Vec<Expr> = if !reuse && top && self.t.chance(if node_stmt { 2 } else { 1 }, 4) { self.scoped_reads(&Ty::Syn) } else { vec![] };
         let through_link = !links.is_empty();
         let coverage = if through_link { Coverage::Exact { stanza: usize::MAX, cap: cap.name.clone() } } else { coverage };
         let cap_expr = if through_link {
